@@ -8,7 +8,8 @@ import SecpS
 # The lemmas instantiated by the SMT side, one Lean theorem per `//@ lemma` line
 
 Source of the statements: the `//@ lemma name(params) {lean: ...}: body` lines of
-`/repo/internal/field/contracts_verif.go`, `/repo/internal/scalar/contracts_verif.go`, `/repo/contracts_verif.go`.
+`/repo/internal/field/contracts_verif.go`, `/repo/internal/scalar/contracts_verif.go`, `/repo/contracts_verif.go`
+and of the lemma programs `/verif/clients/*.go`.
 Interpretation of the vocabulary: `/verif/lemmas/SMT_LEMMAS.md`.  Every theorem `SecpSMT.<name>` below is the
 literal translation of the body of lemma `<name>` (same hypotheses, same conclusion, same constants), universally
 quantified over its parameters.  `imp(a, b)` is `a → b`, `&&` is `∧`, `==` between Booleans is `↔`.
@@ -62,6 +63,8 @@ def pow2 (k : ℤ) : ℤ := 2 ^ k.toNat
 def hi (v i : ℤ) : ℤ := v / pow2 i
 /-- `bit(v, i)` = (v / 2^i) % 2 -/
 def bit (v i : ℤ) : ℤ := (v / pow2 i) % 2
+/-- `bitsumf(v, n)` = sum_{i<n} bit(v, i) * 2^i (`n` is a non-negative integer literal at every use) -/
+def bitsumf (v n : ℤ) : ℤ := ∑ i ∈ Finset.range n.toNat, bit v (i : ℤ) * pow2 (i : ℤ)
 
 /-- `fromM(x)` (m = P) / `fromMn(x)` (m = N): Montgomery decoding `x * R⁻¹` -/
 def fromM (m : ℕ) (x : ℤ) : ZMod m := (x : ZMod m) * ((R : ℤ) : ZMod m)⁻¹
@@ -653,5 +656,101 @@ theorem firstnz_step (rndblock : ℤ → ℤ) (j : ℤ) :
         have e : j + ((n + 1 : ℕ) : ℤ) = j + 1 + (n : ℤ) := by push_cast; ring
         rw [e]; exact hn
       rw [dif_neg h, dif_neg h']
+
+/-! ### /verif/clients/*.go: lemma programs (round trips, bit expansion) -/
+
+/-- two affine points with the same x: `y² = y'²`, so `y = y'` or `y = -y'`; in the second case either `y' = 0 = y`
+or (`neg_parity`, `P` odd) the parities of `fint y`, `fint y'` differ. -/
+theorem same_x_parity (g h : G) :
+    (g ≠ 0 ∧ h ≠ 0 ∧ affx g = affx h ∧ fint (affy g) % 2 = fint (affy h) % 2) → g = h := by
+  rintro ⟨hg, hh, hx, hp⟩
+  cases g with
+  | zero => exact absurd rfl hg
+  | some x y n =>
+    cases h with
+    | zero => exact absurd rfl hh
+    | some x' y' n' =>
+      simp only [affx, affy] at hx hp
+      subst hx
+      have e1 : y^2 = x^3 + 7 := (Secp.eqn_iff x y).1 n.1
+      have e2 : y'^2 = x^3 + 7 := (Secp.eqn_iff x y').1 n'.1
+      have hm : (y - y') * (y + y') = 0 := by linear_combination e1 - e2
+      rcases mul_eq_zero.1 hm with h1 | h1
+      · have hy : y = y' := sub_eq_zero.1 h1
+        subst hy; rfl
+      · have hy : y = -y' := eq_neg_of_add_eq_zero_left h1
+        by_cases h0 : y' = 0
+        · have hy0 : y = y' := by rw [hy, h0, neg_zero]
+          subst hy0; rfl
+        · exfalso
+          have np := neg_parity y' (by rw [Int.cast_zero]; exact h0)
+          rw [← hy] at np
+          omega
+
+theorem same_xy (g h : G) :
+    (g ≠ 0 ∧ h ≠ 0 ∧ affx g = affx h ∧ affy g = affy h) → g = h := by
+  rintro ⟨hg, hh, hx, hy⟩
+  cases g with
+  | zero => exact absurd rfl hg
+  | some x y n =>
+    cases h with
+    | zero => exact absurd rfl hh
+    | some x' y' n' =>
+      simp only [affx, affy] at hx hy
+      subst hx; subst hy; rfl
+
+theorem aff_on_curve (g : G) :
+    g ≠ 0 → affy g * affy g = secp_poly (affx g) ∧ g = aff (affx g) (affy g) := by
+  intro hg
+  cases g with
+  | zero => exact absurd rfl hg
+  | some x y n =>
+    have e : y^2 = x^3 + 7 := (Secp.eqn_iff x y).1 n.1
+    simp only [affx, affy]
+    refine ⟨by unfold secp_poly; linear_combination e, ?_⟩
+    unfold aff
+    rw [dif_pos e]
+    rfl
+
+theorem issq_of_sq (y v : F) : y*y = v → IsSquare v := fun h => ⟨y, h.symm⟩
+
+theorem fofint_eq (n : ℤ) (a : F) : n = fint a → fofint P n = a := by
+  rintro rfl
+  have : NeZero P := ⟨(Fact.out : P.Prime).ne_zero⟩
+  unfold fofint fint
+  rw [Int.cast_natCast, ZMod.natCast_zmod_val]
+
+/-- the partial sums of the binary expansion: `bitsumf(v, n) = v mod 2^n` (every `v`, also negative) -/
+theorem bitsumf_eq (v : ℤ) (n : ℕ) : bitsumf v (n : ℤ) = v % 2 ^ n := by
+  unfold bitsumf
+  rw [Int.toNat_natCast]
+  induction n with
+  | zero => simp
+  | succ k ih =>
+    rw [Finset.sum_range_succ, ih]
+    unfold bit pow2
+    rw [Int.toNat_natCast, pow_succ]
+    have hA : (0 : ℤ) < 2 ^ k := by positivity
+    have h1 : v % (2 ^ k * 2) = v - (2 ^ k * 2) * (v / 2 ^ k / 2) := by
+      rw [Int.ediv_ediv_of_nonneg hA.le]; exact Int.emod_def _ _
+    have h2 : v % 2 ^ k = v - 2 ^ k * (v / 2 ^ k) := Int.emod_def _ _
+    have h3 : v / 2 ^ k % 2 = v / 2 ^ k - 2 * (v / 2 ^ k / 2) := Int.emod_def _ _
+    linear_combination h2 - h1 + (2 : ℤ) ^ k * h3
+
+theorem bits_total (v : ℤ) : (0 ≤ v ∧ v < pow2 256) → bitsumf v 256 = v := by
+  rintro ⟨h0, h1⟩
+  have e : pow2 256 = 2 ^ 256 := rfl
+  rw [e] at h1
+  have s := bitsumf_eq v 256
+  rw [Int.emod_eq_of_lt h0 h1] at s
+  exact s
+
+theorem add_neg_cancel (p q : G) : p + q + -q = p := add_neg_cancel_right p q
+
+theorem ninv_mul (x : Fn) : x ≠ ((0 : ℤ) : Fn) → x⁻¹ * x = ((1 : ℤ) : Fn) := by
+  intro h
+  rw [Int.cast_zero] at h
+  rw [Int.cast_one]
+  exact inv_mul_cancel₀ h
 
 end SecpSMT
